@@ -404,6 +404,35 @@ def sweep(fx, R):
                                'copy (a worker built from a prototype, an element of a vector of estimators, a by-value capture) `%s` still refers to the ORIGINAL object\'s %s - the copy computes with its own %s and '
                                'reads the results of the original: what it returns is not a function of its own inputs' % (i['field'], pp(i['e'])[:70], i['field'], own[0]['name'], own[0]['name']),
                                fx.rel(g['loc']), 'E-STATE')
+    # ---- H12 (closures): a std::function member given a lambda that captures `this`, in a class whose copy operations are the compiler-generated ones: the copy's closure still calls into the original --
+    for cls in classes:
+        rec = fx.records.get(cls) or {}
+        fn_fields = {fl_['name'] for fl_ in rec.get('fields', []) if (fl_.get('t') or {}).get('s', '').replace('mutable ', '').startswith('std::function<')}
+        if not fn_fields:
+            continue
+        copy = [m_ for m_ in rec.get('methods', []) if m_.get('copyctor')]
+        user_copy = any(not m_.get('implicit') and not m_.get('deleted') for m_ in copy)
+        deleted = bool(copy) and all(m_.get('deleted') for m_ in copy)
+        for g in [g for g in fx.functions.values() if g.get('cls') == cls and g.get('body') is not None and not g.get('copyctor')]:
+            sites = [(i_['field'], i_['e']) for i_ in g.get('inits', []) if i_.get('field') in fn_fields and i_.get('e') is not None] + \
+                    [(bm['name'], rhs) for (bm, rhs) in stores_in(g['body']) if bm.get('cls') == cls and bm.get('name') in fn_fields]
+            for (fld_, e_) in sites:
+                lam = next((y for y in walk(e_) if isinstance(y, dict) and y.get('k') == 'Lambda' and y.get('captures_this')), None)
+                if lam is None:
+                    continue
+                used = any(isinstance(y, dict) and y.get('k') == 'Member' and y.get('name') == fld_ and y.get('cls') == cls for f_ in fns if f_.get('cls') == cls and not f_.get('ctor') for y in walk(f_.get('body')))
+                inst = '%s:closure-bound-to-this:%s' % (cls, fld_)
+                if not used:
+                    continue
+                if deleted:
+                    R.holds('H12', inst, 'the closure captures this; the class cannot be copied', fx.rel(g['loc']), 'E-STATE')
+                elif user_copy:
+                    R.undecided('H12', inst, 'a closure that captures this is stored in `%s`; the user-provided copy constructor is not followed' % fld_)
+                else:
+                    R.violated('H12', inst, '`%s` is a std::function member that %s() fills with a lambda capturing `this`, and the copy operations are the compiler-generated ones: they copy the closure as it is, so in a '
+                               'copy (an element of a vector, a converter returned by value, a member re-assigned later) `%s` still calls into the ORIGINAL object - it reads the original\'s members at call time '
+                               '(another ellipsoid once the original is re-assigned, freed memory once it is destroyed): what the copy returns is not a function of its own state and its argument' % (
+                                   fld_, g['name'], fld_), fx.rel(lam.get('loc') or g['loc']), 'E-STATE')
     # ---- H11: a member function this property reads that redefines, with the same signature, a NON-virtual member of a public base: through a base reference the base version runs --------
     for cls in classes:
         rec = fx.records.get(cls) or {}
@@ -541,6 +570,15 @@ def sweep(fx, R):
                         l0 = strip_casts(l0['args'][0]) if l0.get('k') == 'Op' and l0.get('args') else strip_casts(l0.get('obj')) if l0.get('k') == 'MCall' else None
                 if tgt in returned and any(isinstance(z, dict) and z.get('k') == 'Ref' and z.get('id') in tainted for z in walk(r_)):
                     written.add(tgt)
+            # comma initialiser: member << a, b, ...;
+            if isinstance(y, dict) and y.get('k') == 'Op' and y.get('op') == ',' and len(y.get('args', [])) == 2:
+                n_ = y
+                while isinstance(n_, dict) and n_.get('k') == 'Op' and n_.get('op') == ',' and len(n_.get('args', [])) == 2:
+                    n_ = strip_casts(n_['args'][0])
+                if isinstance(n_, dict) and n_.get('k') == 'Op' and n_.get('op') == '<<' and len(n_.get('args', [])) == 2:
+                    bm = base_member(n_['args'][0])
+                    if bm is not None and bm.get('cls') == f['cls'] and bm['name'] in returned and any(isinstance(z, dict) and z.get('k') == 'Ref' and z.get('id') in tainted for z in walk(y)):
+                        written.add(bm['name'])
         inst = '%s:returns-member-buffer' % f['q']
         if written:
             R.violated('H9', inst, '%s() computes its result from its arguments into the member `%s` and returns a REFERENCE to it: the results of two calls on one object are the same object, so a result a caller '
